@@ -309,6 +309,53 @@ def py_findcycle(root, g, descending=False):
     return lst
 
 
+def root_must_wait(b, root, prev):
+    """True when the requested key cannot have finished: its task was created and never completed, or it is only being scanned and its
+    RECORDED dependencies (prev = (deps dumped after the previous build on this engine/database, rules in force then); single-use ones are
+    dropped before a scan) lead, through keys that are likewise only scanned, to a task that never completed or to a cycle of such keys.
+    A rule that is scanned walks its recorded dependencies in order until one does not finish; it would have been re-run (and show a
+    'create' event) if one had changed, so a key without 'create' that reaches something stuck is itself parked."""
+    created, completed = set(), set()
+    for l in b["events"]:
+        t = l.split(" ")
+        if t[0] == "create":
+            created.add(int(t[1]))
+        elif t[0] == "complete":
+            completed.add(int(t[1]))
+    stuck = created - completed
+    if root in stuck:
+        return True
+    if root in completed:
+        return False
+    pdeps, prules = prev if prev else ({}, {})
+    def rec(k):
+        d = list(pdeps.get(k, []))
+        for sgl in (prules.get(k) or {}).get("single", []):
+            if sgl in d:
+                d.remove(sgl)
+        return d
+    # depth-first search over scan-only keys; grey = on the current path
+    color = {}
+    def visit(k):
+        if k in stuck:
+            return True
+        if k in created or k in completed:
+            return False
+        if color.get(k) == 1:
+            return True            # a cycle among keys that are only scanned
+        if color.get(k) == 2:
+            return False
+        color[k] = 1
+        for d in rec(k):
+            if visit(d):
+                return True
+        color[k] = 2
+        return False
+    import sys
+    sys.setrecursionlimit(10000)
+    return visit(root)
+
+
 class Judge:
     def __init__(self, chk):
         self.chk = chk
@@ -324,7 +371,7 @@ class Judge:
             rp.update(extra)
         self.chk.violation(key, what, rp, found_input=found, broken=broken)
 
-    def check_report(self, c, b, root, allowed, expect, fresh_val, disc_cyclic=False, label="build"):
+    def check_report(self, c, b, root, allowed, expect, fresh_val, disc_cyclic=False, label="build", prev=None):
         """expect: 'cycle' | 'ok' | 'may'.  allowed(x, y): may x wait on y?  fresh_val: value a fresh evaluation gives (or None)."""
         chk = self.chk
         cycles, graphs, bad = parse_report(b)
@@ -353,7 +400,9 @@ class Judge:
             lst = cycles[0]
             if not failed:
                 self.viol("cycle-reported-but-build-succeeded", "a cycle was reported but build() returned a value", c, ctx, broken="c07 oracle: failure on cycle")
-            root_waits = any(w == root for g in graphs for (a, w) in g)
+            # Does the requested key HAVE to be waiting when the engine got stuck?  Decided from the callback trace and the dependency
+            # records of the previous build only (not from the wait-for graph the engine dumps, which is what is being judged).
+            root_waits = root_must_wait(b, root, prev)
             if not lst and not root_waits and (disc_cyclic or has_disc_nonleaf(c)):
                 self.viol("disc-cycle-empty-list", "a cycle reachable only through the discovered dependency of a completed task is reported as an EMPTY key list "
                           "(findCycle searches from the requested key, which waits on nothing any more; resolveCycle's assert(!cycleList.empty()) would fire in a debug build)",
@@ -445,7 +494,7 @@ class Judge:
                 # wait-for edges of THIS build, or dependencies recorded for a key that completed in the earlier build
                 allowed2 = lambda x, y: y in sem2.real.get(x, ()) or (sem.val.get(x) is not None and y in sem.real.get(x, ()))
                 self.check_report(c, builds[1], c["post"], allowed2, "cycle" if (v2 is None or bad2) else "ok", v2, disc_cyclic=(v2 is not None and bool(bad2)),
-                                  label="the build of key %d after the failed build on the same engine" % c["post"])
+                                  prev=(builds[0]["deps"], c["rules"]), label="the build of key %d after the failed build on the same engine" % c["post"])
 
     # ---- several builds in a row on ONE engine instance, external values changing in between (different cycles, successes in between)
     def seq_case(self, c, builds):
@@ -464,6 +513,7 @@ class Judge:
             allowed = (lambda sem, rec: lambda x, y: y in sem.real.get(x, ()) or y in rec.get(x, ()))(sem, dict(rec))
             self.stats["sequence_builds"] = self.stats.get("sequence_builds", 0) + 1
             self.check_report(c, b, root, allowed, "cycle" if (v is None or bad) else "ok", v, disc_cyclic=(v is not None and bool(bad)),
+                              prev=((builds[i - 1]["deps"], c["rules"]) if i > 0 else None),
                               label="build %d of %d on the same engine (key %d)" % (i + 1, len(c["steps"]), root))
             cycles, graphs, _ = parse_report(b)
             if cycles and prev is not None and prev != cycles[0]:
@@ -512,7 +562,7 @@ class Judge:
         elif cycles:
             self.stats["cyclic_static"] += 1
         self.check_report(c, builds[1], c["root2"], allowed, expect, v2 if (discipline and expect != "cycle") else None,
-                          label="the build after the restart")
+                          prev=(builds[0]["deps"], c["rules1"]), label="the build after the restart")
 
 
 def gen_recorded(rng, disc_nonleaf=False):
